@@ -229,7 +229,7 @@ impl Prop for C14 {
     const ID: &'static str = "C14";
     const LEVEL: &'static str = "fault_enumeration";
     const ISOLATE: bool = true; // RLIMIT_FSIZE is process wide: every case runs in a single-threaded worker process
-    const RULE: &'static str = "for each generated structure of any Serialize type (up to a few KiB): (a) load from EVERY strict byte prefix (every byte up to 3000 bytes, element boundaries +-1 beyond) through a reader that also returns short reads must be Err (no panic, no value); (b) for optional values skip_option on every strict prefix must be Err; (c) serialize into a sink that fails after EVERY budget 0..size-1 must return the sink's own error having written a prefix of the true bytes; (d) mapped views of the file truncated at every element boundary must be refused; (e) IntVectorWriter/RawVectorWriter programs under EVERY RLIMIT_FSIZE value 0..=size+8: outcome must be constructor Err, documented push panic, or close Err whenever the file is incomplete, close()==Ok implies byte-identical to the in-memory serialization, and a close() that follows a caught push panic or a failed close() under the same limit must not report success for an incomplete file. Non-trivial: a fault point beyond the first element; distinct by (structure bytes, fault kind, point).";
+    const RULE: &'static str = "for each generated structure of any Serialize type (up to a few KiB): (a) load from EVERY strict byte prefix (every byte up to 3000 bytes, element boundaries +-1 beyond) through a reader that also returns short reads must be Err (no panic, no value); (b) for optional values skip_option on every strict prefix must be Err; (c) serialize into a sink that fails after EVERY budget 0..size-1 must return the sink's own error having written a prefix of the true bytes; (d) mapped views of the file truncated at every element boundary must be refused; (f) serialize_to() a file under EVERY RLIMIT_FSIZE value 0..=size+8 (structures up to 1200 bytes) returns Ok only for a complete file; (e) IntVectorWriter/RawVectorWriter programs under EVERY RLIMIT_FSIZE value 0..=size+8: outcome must be constructor Err, documented push panic, or close Err whenever the file is incomplete, close()==Ok implies byte-identical to the in-memory serialization, and a close() that follows a caught push panic or a failed close() under the same limit must not report success for an incomplete file. Non-trivial: a fault point beyond the first element; distinct by (structure bytes, fault kind, point).";
 
     fn cases(tier: Tier) -> u32 {
         tier.pick(700, 8000)
@@ -353,6 +353,45 @@ impl Prop for C14 {
             rep.class("mapped-truncation");
         }
 
+        // (f) serialize_to() a file under every file size limit: success only for a complete file
+        if size <= 1200 {
+            let path = temp_path("sto", skey);
+            let mut failure: Option<Fail> = None;
+            for limit in 0..=size + 8 {
+                let _ = std::fs::remove_file(&path);
+                let res = {
+                    let _guard = FsizeLimit::set(limit as u64);
+                    catch(|| x.to_file(&path))
+                };
+                let on_disk = std::fs::read(&path).unwrap_or_default();
+                match res {
+                    Ok(Ok(())) => {
+                        if on_disk != bytes {
+                            failure = Some(Fail::new("serialize_to.success-on-incomplete-file", format!("{}: serialize_to returned Ok under a file size limit of {} bytes but the file has {} of {} bytes", name, limit, on_disk.len(), size)));
+                        }
+                    }
+                    Ok(Err(_)) => {
+                        if limit >= size {
+                            failure = Some(Fail::new("serialize_to.fails-without-fault", format!("{}: serialize_to failed although the limit {} allows all {} bytes", name, limit, size)));
+                        }
+                    }
+                    Err((loc, msg)) => failure = Some(Fail::new(format!("serialize_to.panic@{}", loc), format!("{}: serialize_to panicked under a file size limit of {} bytes at {}: {}", name, limit, loc, msg))),
+                }
+                if failure.is_some() {
+                    break;
+                }
+                rep.evals += 1;
+                if limit >= 8 && limit < size {
+                    rep.keys.push(mix(skey, mix(6, limit as u64)));
+                }
+            }
+            let _ = std::fs::remove_file(&path);
+            if let Some(f) = failure {
+                return Err(f);
+            }
+            rep.class("serialize_to-under-limits");
+        }
+
         // (e) buffered writers under every file size limit
         if let Some(w) = &case.writer {
             let expected = writer_expected(w);
@@ -401,7 +440,7 @@ impl Prop for C14 {
     }
 
     fn health(classes: &BTreeMap<String, u64>, _tier: Tier) -> Result<(), String> {
-        for c in ["skip_option", "mapped-truncation", "writer:CtorErr", "writer:PushPanic", "writer:CloseErr", "writer:Complete", "RLVector", "WaveletMatrix", "SparseVector"] {
+        for c in ["skip_option", "mapped-truncation", "serialize_to-under-limits", "writer:CtorErr", "writer:PushPanic", "writer:CloseErr", "writer:Complete", "RLVector", "WaveletMatrix", "SparseVector"] {
             if classes.get(c).copied().unwrap_or(0) == 0 {
                 return Err(format!("no generated case reached class {}", c));
             }
